@@ -17,6 +17,7 @@ package gates
 //@ def isu64(x) = inre(x, `[0-9]+`) && toint(x) < 18446744073709551616
 
 //@ func GateInstanceFromId(gateId string) (res Gate)
+//@   locals regex handler matches parameters i name
 //@   props C18
 //@   plain
 //@   flag cover-each-case
@@ -75,12 +76,14 @@ package gates
 // idlist(w) states as a premise that every trimmed piece is a decimal below 2^64 (true of the field elements
 // plonky2 prints); the parsed weight values themselves are not part of the proved statement
 //@ func deserializeCosetInterpolationGate(parameters map[string]string) (res Gate)
+//@   locals subgroupBits hasSubgroupBits degree hasDegree barycentricWeights hasBarycentricWeights subgroupBitsInt err degreeInt barycentricWeightsStr barycentricWeightsInt i barycentricWeightStr barycentricWeightInt err
 //@   props C18
 //@   plain
 //@   flag inline-at-calls
 //@   loop 0 invariant -1 <= rangeindex && rangeindex < len(barycentricWeightsStr) && len(barycentricWeightsInt) == len(barycentricWeightsStr)
 
 //@ func NewSelectorsInfo(selectorIndices []uint64, groupStarts []uint64, groupEnds []uint64) (res *SelectorsInfo)
+//@   locals groups i
 //@   props C19
 //@   plain
 //@   ensures len(groupStarts) == len(groupEnds)
@@ -111,6 +114,7 @@ package gates
 //@   ensures forall(k, 0, len(e.localConstants), e.localConstants[k] == old(e.localConstants)[k + numSelectors])
 
 //@ func (e *EvaluationVars) GetLocalExtAlgebra(wireRange Range) (res gl.QuadraticExtensionAlgebraVariable)
+//@   locals ret i
 //@   props C15
 //@   plain
 //@   requires wireRange.start < 4294967296 && wireRange.end < 4294967296
@@ -122,6 +126,7 @@ package gates
 
 //@ def arith_c(w, c, i) = qe_subo(w[4*i+3], qe_addo(qe_mulo(qe_mulo(w[4*i], w[4*i+1]), c[0]), qe_mulo(w[4*i+2], c[1])))
 //@ func (g *ArithmeticGate) EvalUnfiltered(api frontend.API, glApi *gl.Chip, vars EvaluationVars) (res []gl.QuadraticExtensionVariable)
+//@   locals const0 const1 constraints i multiplicand0 multiplicand1 addend output computedOutput
 //@   props C15
 //@   circuit
 //@   requires gv_ok(glApi, vars) && g.numOps < 1048576
@@ -132,6 +137,7 @@ package gates
 
 //@ def aext_c(w, c, i) = qea_subo(qea_w(w, 8*i+6), qea_addo(qea_smulo(c[1], qea_w(w, 8*i+4)), qea_smulo(c[0], qea_mulo(qea_w(w, 8*i), qea_w(w, 8*i+2)))))
 //@ func (g *ArithmeticExtensionGate) EvalUnfiltered(api frontend.API, glApi *gl.Chip, vars EvaluationVars) (res []gl.QuadraticExtensionVariable)
+//@   locals const0 const1 constraints i multiplicand0 multiplicand1 addend output mul scaled_mul computed_output diff j
 //@   props C15
 //@   circuit
 //@   requires gv_ok(glApi, vars) && g.numOps < 1048576
@@ -143,6 +149,7 @@ package gates
 
 //@ def mext_c(w, c, i) = qea_subo(qea_w(w, 6*i+4), qea_smulo(c[0], qea_mulo(qea_w(w, 6*i), qea_w(w, 6*i+2))))
 //@ func (g *MultiplicationExtensionGate) EvalUnfiltered(api frontend.API, glApi *gl.Chip, vars EvaluationVars) (res []gl.QuadraticExtensionVariable)
+//@   locals const0 constraints i multiplicand0 multiplicand1 output mul computed_output diff j
 //@   props C15
 //@   circuit
 //@   requires gv_ok(glApi, vars) && g.numOps < 1048576
@@ -153,6 +160,7 @@ package gates
 //@        forall(k, 0, i, constraints[2*k] == mext_c(vars.localWires, vars.localConstants, k)[0] && constraints[2*k+1] == mext_c(vars.localWires, vars.localConstants, k)[1])
 
 //@ func (g *ConstantGate) EvalUnfiltered(api frontend.API, glApi *gl.Chip, vars EvaluationVars) (res []gl.QuadraticExtensionVariable)
+//@   locals constraints i
 //@   props C15
 //@   circuit
 //@   requires gv_ok(glApi, vars) && g.numConsts < 1048576
@@ -167,6 +175,7 @@ package gates
 //@   ensures len(res) == 0 && canonQEs(res)
 
 //@ func (g *PublicInputGate) EvalUnfiltered(api frontend.API, glApi *gl.Chip, vars EvaluationVars) (res []gl.QuadraticExtensionVariable)
+//@   locals constraints wires hash_parts i wire hash_part tmp diff
 //@   props C15
 //@   circuit
 //@   requires gv_ok(glApi, vars) && forall(k, 0, 4, canon(vars.publicInputsHash[k]))
@@ -178,6 +187,7 @@ package gates
 //@ def red_prev(w, n, i) = ite(i == 0, qea_w(w, 4), red_acc(w, n, i - 1))
 //@ def red_c(w, n, i) = qea_subo(qea_addo(qea_mulo(red_prev(w, n, i), qea_w(w, 2)), tuple(w[6 + i], tuple(0, 0))), red_acc(w, n, i))
 //@ func (g *ReducingGate) EvalUnfiltered(api frontend.API, glApi *gl.Chip, vars EvaluationVars) (res []gl.QuadraticExtensionVariable)
+//@   locals alpha oldAcc coeffs coeffsRange i accs i constraints acc i coeff tmp j
 //@   props C15
 //@   circuit
 //@   requires gv_ok(glApi, vars) && g.numCoeffs < 1048576
@@ -193,6 +203,7 @@ package gates
 //@ def rex_prev(w, n, i) = ite(i == 0, qea_w(w, 4), rex_acc(w, n, i - 1))
 //@ def rex_c(w, n, i) = qea_subo(qea_addo(qea_mulo(rex_prev(w, n, i), qea_w(w, 2)), qea_w(w, 6 + 2*i)), rex_acc(w, n, i))
 //@ func (g *ReducingExtensionGate) EvalUnfiltered(api frontend.API, glApi *gl.Chip, vars EvaluationVars) (res []gl.QuadraticExtensionVariable)
+//@   locals alpha oldAcc coeffs i accs i constraints acc i coeff tmp j
 //@   props C15
 //@   circuit
 //@   requires gv_ok(glApi, vars) && g.numCoeffs < 1048576
@@ -214,6 +225,7 @@ package gates
 //@ def ex_mulby(w, n, i) = qe_subo(qe_mulo(w[n - i], w[0]), qe_subo(qe_mulo(w[n - i], tuple(1, 0)), tuple(1, 0)))
 //@ def ex_c(w, n, i) = qe_subo(qe_mulo(ex_prev(w, n, i), ex_mulby(w, n, i)), w[2 + n + i])
 //@ func (g *ExponentiationGate) EvalUnfiltered(api frontend.API, glApi *gl.Chip, vars EvaluationVars) (res []gl.QuadraticExtensionVariable)
+//@   locals base powerBits i intermediateValues i output constraints i prevIntermediateValue curBit tmp mulBy intermediateValueDiff outputDiff
 //@   props C15
 //@   circuit
 //@   requires gv_ok(glApi, vars) && 1 <= g.numPowerBits && g.numPowerBits < 1048576
@@ -226,6 +238,7 @@ package gates
 //@   loop 2 invariant 0 <= i && i <= g.numPowerBits && len(constraints) == i && canonQEs(constraints) && forall(k, 0, i, constraints[k] == ex_c(vars.localWires, g.numPowerBits, k))
 
 //@ func (g *BaseSumGate) limbs() (res []uint64)
+//@   locals limbIndices i
 //@   props C15
 //@   plain
 //@   requires g.numLimbs < 1048576
@@ -235,6 +248,7 @@ package gates
 // the limb product  prod_{j < base} (limb - j)  and the base-B recomposition (Horner form, = plonky2's reduce_with_powers)
 //@ recdef bs_prod(x QE, k int) QE = ite(k <= 0, tuple(1, 0), qe_mulo(bs_prod(x, k - 1), qe_subo(x, tuple(k - 1, 0))))
 //@ func (g *BaseSumGate) EvalUnfiltered(api frontend.API, glApi *gl.Chip, vars EvaluationVars) (res []gl.QuadraticExtensionVariable)
+//@   locals sum limbs limbIndices i limbIdx baseQe computedSum constraints limb acc i difference
 //@   props C15
 //@   circuit
 //@   requires gv_ok(glApi, vars) && g.numLimbs < 1048576 && g.base < 1048576
@@ -263,6 +277,7 @@ package gates
 //@ def ra_recon_ok(res, w, g, c) = res[c*(g.bits + 2) + g.bits] == qe_subo(ra_recon(w, ra_bb(g, c), 0, g.bits), w[ra_stride(g) * c])
 //@ def ra_item_ok(res, w, g, c) = res[c*(g.bits + 2) + g.bits + 1] == qe_subo(ra_item(w, ra_stride(g) * c + 2, ra_bb(g, c), g.bits, 0), w[ra_stride(g) * c + 1])
 //@ func (g *RandomAccessGate) EvalUnfiltered(api frontend.API, glApi *gl.Chip, vars EvaluationVars) (res []gl.QuadraticExtensionVariable)
+//@   locals two constraints copy accessIndex listItems i claimedElement bits i b bSquared reconstructedIndex b listItemsTmp i x y diff mul add i
 //@   props C15
 //@   circuit
 //@   cases g.bits 0 7
@@ -298,6 +313,7 @@ package gates
 //@        qea_pint(dom[0:d], vals[0:d], ws[0:d], sp, tuple(tuple(0, 0), tuple(0, 0)), tuple(tuple(1, 0), tuple(0, 0)), d),
 //@        qea_pint(dom[cg_lo(d, i):cg_hi(d, np, i)], vals[cg_lo(d, i):cg_hi(d, np, i)], ws[cg_lo(d, i):cg_hi(d, np, i)], sp, qea_w(w, si + 2*(i-1)), qea_w(w, si + 2*(nint + i - 1)), cg_hi(d, np, i) - cg_lo(d, i)))
 //@ func (g *CosetInterpolationGate) EvalUnfiltered(api frontend.API, glApi *gl.Chip, vars EvaluationVars) (res []gl.QuadraticExtensionVariable)
+//@   locals constraints shift evaluationPoint shiftedEvaluationPoint negShift tmp i domain values i weights initialEval initialProd computedEval computedProd i intermediateEval intermediateProd evalDiff j prodDiff j startIndex endIndex evaluationValue evalDiff j
 //@   props C15
 //@   circuit
 //@   cases g.subgroupBits 2 5
@@ -319,6 +335,7 @@ package gates
 //@ def pm_in(w) = mktuple(12, i, qea_w(w, 2*i))
 //@ def pm_row(v, r) = qea_addo(iterate(12, i, acc, tuple(tuple(0, 0), tuple(0, 0)), qea_addo(acc, qea_smulo(tuple(poseidon.MDS_MATRIX_CIRC[i], 0), v[(i + r) % 12]))), qea_smulo(tuple(poseidon.MDS_MATRIX_DIAG[r], 0), v[r]))
 //@ func (g *PoseidonMdsGate) EvalUnfiltered(api frontend.API, glApi *gl.Chip, vars EvaluationVars) (res []gl.QuadraticExtensionVariable)
+//@   locals constraints inputs i computed_outputs i output diff i
 //@   props C15
 //@   circuit
 //@   requires gv_ok(glApi, vars)
@@ -340,6 +357,7 @@ package gates
 //@        spe_pfast(pg_set0(pg_st(pg_T(w, r - 1)), ite(r - 1 < 21, qe_addo(qe_pow7(w[65 + r - 1]), qe_c(poseidon.FAST_PARTIAL_ROUND_CONSTANTS[ite(r - 1 < 21, r - 1, 0)])), qe_pow7(w[65 + r - 1]))), r - 1))
 //@ def pg_prev1(w, r) = ite(r == 0, pg_st(pg_T(w, 22)), spe_mds(spe_sbox(pg_w1(w, ite(r == 0, 0, r - 1)))))
 //@ func (g *PoseidonGate) EvalUnfiltered(api frontend.API, glApi *gl.Chip, vars EvaluationVars) (res []gl.QuadraticExtensionVariable)
+//@   locals constraints poseidonChip swap swapMinusOne i inputLhs inputRhs deltaI diff expectedDeltaI state i deltaI inputLhs inputRhs i roundCounter r i sBoxIn r sBoxIn sBoxIn r i sBoxIn i
 //@   props C15
 //@   circuit
 //@   requires gv_ok(glApi, vars)
@@ -368,6 +386,7 @@ package gates
 //@ recdef flt(s QE, row int, lo int, k int) QE = ite(k <= lo, tuple(1, 0), ite(k - 1 == row, flt(s, row, lo, k - 1), qe_mulo(flt(s, row, lo, k - 1), qe_subo(tuple(k - 1, 0), s))))
 //@ def filter_spec(s, row, lo, hi, many) = ite(many, qe_mulo(flt(s, row, lo, hi), qe_subo(tuple(4294967295, 0), s)), flt(s, row, lo, hi))
 //@ func (g *EvaluateGatesChip) computeFilter(row uint64, groupRange Range, s gl.QuadraticExtensionVariable, manySelector bool) (res gl.QuadraticExtensionVariable)
+//@   locals glApi product i tmp tmp
 //@   props C15
 //@   circuit
 //@   requires canonQE(s) && groupRange.start < 1048576 && groupRange.end < 1048576
@@ -376,6 +395,7 @@ package gates
 //@   loop 0 invariant groupRange.start <= i && i <= 1048576 && (i <= groupRange.end || i == groupRange.start) && chipok(glApi) && canonQE(product) && product == flt(s, row, groupRange.start, i)
 
 //@ func (g *EvaluateGatesChip) evalFiltered(gate Gate, vars EvaluationVars, row uint64, selectorIndex uint64, groupRange Range, numSelectors uint64) (res []gl.QuadraticExtensionVariable)
+//@   locals glApi filter unfiltered i
 //@   props C15
 //@   circuit sound-only
 //@   requires canonQEs(vars.localConstants) && canonQEs(vars.localWires) && groupRange.start < 1048576 && groupRange.end < 1048576 && numSelectors < 1048576
@@ -398,6 +418,7 @@ package gates
 //@ opaque def gf1(i, j) = 0
 //@ recdef gsum(j int, k int) QE = ite(k <= 0, tuple(0, 0), ite(j < gfl(k - 1), qe_addo(gsum(j, k - 1), tuple(gf0(k - 1, j), gf1(k - 1, j))), gsum(j, k - 1)))
 //@ func (g *EvaluateGatesChip) EvaluateGateConstraints(vars EvaluationVars) (res []gl.QuadraticExtensionVariable)
+//@   locals glApi constraints i i gate selectorIndex gateConstraints i constraint
 //@   props C15 C01
 //@   circuit sound-only
 //@   requires canonQEs(vars.localConstants) && canonQEs(vars.localWires) && g.numGateConstraints <= 4294967296 && sel_small(g.selectorsInfo)
